@@ -105,6 +105,7 @@ class Net:
 
   def __init__(self, clock=None):
     self.servers = {}
+    self.all_servers = []
     self.clock = clock
     self.calls = 0
     self.log = []
@@ -124,11 +125,30 @@ class Net:
 
 
 class SimServer:
+  """grpc.Server stand-in. Concurrency semantics of grpc/_server.py (1.84), calibrated in calibrate.py:
 
-  def __init__(self, net):
+  * `maximum_concurrent_rpcs=k`: an RPC arriving while k are being serviced (running or queued) is refused
+    with RESOURCE_EXHAUSTED "Concurrent RPC limit exceeded!" - admission control, not queueing;
+  * the executor's `max_workers=n`: at most n handlers run, further admitted RPCs wait for a worker.
+  Both only matter when several client threads are in flight (the conc engine).
+  """
+
+  def __init__(self, net, max_workers=None, maximum_concurrent_rpcs=None):
     self.net = net
     self.endpoint = None
     self._generic = []
+    self.maximum_concurrent_rpcs = maximum_concurrent_rpcs
+    self.in_flight = 0
+    self.pool = None
+    if max_workers is not None:
+      from simkit import conc  # pylint: disable=g-import-not-at-top
+      self.pool = conc.SimSemaphore(int(max_workers), name=f'pool{len(net.all_servers)}')
+    net.all_servers.append(self)
+
+  def reset_concurrency(self):
+    self.in_flight = 0
+    if self.pool is not None:
+      self.pool.reset()
 
   def add_generic_rpc_handlers(self, handlers):
     self._generic.extend(handlers)
@@ -197,14 +217,26 @@ class SimChannel:
       req = handler.request_deserializer(wire)
       ctx = SimServicerContext()
       net.log.append(method)
+      if srv.maximum_concurrent_rpcs is not None and srv.in_flight >= srv.maximum_concurrent_rpcs:
+        net.fired['rpc-refused-concurrency-limit'] = net.fired.get('rpc-refused-concurrency-limit', 0) + 1
+        raise SimRpcError(grpc.StatusCode.RESOURCE_EXHAUSTED, 'Concurrent RPC limit exceeded!')
+      srv.in_flight += 1
       try:
-        resp = handler.unary_unary(req, ctx)
+        if srv.pool is not None:
+          srv.pool.acquire()  # waits for a worker thread of the server's executor
+        try:
+          resp = handler.unary_unary(req, ctx)
+        finally:
+          if srv.pool is not None:
+            srv.pool.release()
       except _Abort:
         raise SimRpcError(ctx.code, ctx.details_) from None
       except Exception as e:  # pylint: disable=broad-except
         code = ctx.code if ctx.code not in (None, grpc.StatusCode.OK) else grpc.StatusCode.UNKNOWN
         details = ctx.details_ if ctx.details_ is not None else f'Exception calling application: {e}'
         raise SimRpcError(code, details) from None
+      finally:
+        srv.in_flight -= 1
       if fault and fault[0] == 'resp_lost':
         net.fired['resp_lost'] = net.fired.get('resp_lost', 0) + 1
         raise SimRpcError(grpc.StatusCode.UNAVAILABLE, 'sim: response lost')
@@ -235,8 +267,9 @@ class GrpcShim:
   def __getattr__(self, name):
     return getattr(grpc, name)
 
-  def server(self, *a, **k):
-    return SimServer(self._net)
+  def server(self, thread_pool=None, *a, maximum_concurrent_rpcs=None, **k):
+    return SimServer(self._net, max_workers=getattr(thread_pool, '_max_workers', None),
+                     maximum_concurrent_rpcs=maximum_concurrent_rpcs)
 
   def insecure_channel(self, endpoint, *a, **k):
     return SimChannel(self._net, endpoint)
